@@ -277,6 +277,7 @@ type loop struct {
 	viol    []string
 	quiet   int
 	sched   *drummer.VerifScheduler // one long-lived scheduler per leader, as in Drummer; replaced now and then (leader change)
+	stamped map[[2]uint64]uint64    // (shard, member) -> last positive report time seen in the view while it stayed a member
 }
 
 func (l *loop) fail(prop, clause, sig, what string) {
@@ -763,7 +764,43 @@ func (l *loop) healed() (bool, string) {
 	return true, ""
 }
 
+// checkDetectionInput: failure detection works off the time of a member's last own report; a member that has such a time
+// keeps one for as long as it stays a member (only a newer report changes it, to a later time). A view that forgets it
+// turns a crashed member into one "waiting to be started", which is never classified failed and never repaired.
+func (l *loop) checkDetectionInput() {
+	var sc struct {
+		ShardImage struct {
+			Shards map[uint64]struct {
+				Replicas map[uint64]struct{ Tick uint64 }
+			}
+		}
+	}
+	if err := json.Unmarshal(l.ctxJSON(), &sc); err != nil {
+		panic(err)
+	}
+	if l.stamped == nil {
+		l.stamped = map[[2]uint64]uint64{}
+	}
+	now := map[[2]uint64]uint64{}
+	for sid, v := range sc.ShardImage.Shards {
+		for rid, n := range v.Replicas {
+			k := [2]uint64{sid, rid}
+			l.run.Count("c01:detection_input_checked")
+			if was, ok := l.stamped[k]; ok && n.Tick < was {
+				why := fmt.Sprintf("member %d of shard %d was last reported by its NodeHost at logical time %d; it is still a member and the view now holds %d for it", rid, sid, was, n.Tick)
+				l.fail("C01", "detection_input", "report-time-of-a-member-forgotten", why)
+				l.fail("C05", "class_follows_report_history", "report-time-of-a-member-forgotten", why)
+			}
+			if n.Tick > 0 {
+				now[k] = n.Tick
+			}
+		}
+	}
+	l.stamped = now
+}
+
 func (l *loop) checkSafety() {
+	l.checkDetectionInput()
 	for _, s := range l.shards {
 		g := l.groups[s.ShardId]
 		if g == nil {
